@@ -48,6 +48,32 @@ func C15(ctx *Ctx) {
 	}
 	fType, fAddr, fCount := fieldIndex(lineS, "asmLineType"), fieldIndex(lineS, "address"), fieldIndex(lineS, "byteCount")
 	if fType < 0 || fAddr < 0 || fCount < 0 {
+		// renamed fields: the line type is the only field of a named integer type, the address the only uint32,
+		// the byte count the only int
+		fType, fAddr, fCount = -1, -1, -1
+		nT, nA, nC := 0, 0, 0
+		for i := 0; i < lineS.NumFields(); i++ {
+			ft := lineS.Field(i).Type()
+			if _, isNamed := ft.(*types.Named); isNamed {
+				if _, _, isInt := absint.IntType(ft); isInt {
+					fType, nT = i, nT+1
+				}
+				continue
+			}
+			if b, ok := ft.(*types.Basic); ok {
+				switch b.Kind() {
+				case types.Uint32:
+					fAddr, nA = i, nA+1
+				case types.Int:
+					fCount, nC = i, nC+1
+				}
+			}
+		}
+		if nT != 1 || nA != 1 || nC != 1 {
+			fType = -1
+		}
+	}
+	if fType < 0 || fAddr < 0 || fCount < 0 {
 		R.Fail("record", "line-fields", "", "listing records lack asmLineType / address / byteCount")
 		return
 	}
@@ -163,7 +189,7 @@ func C15(ctx *Ctx) {
 			R.Pass("pure", name, pos, "empty mod-set on the Emitter")
 		}
 		checkListingWriter(ctx, roles, fn, byType, lineS, fType, fAddr, fCount)
-		checkDirectiveArms(ctx, roles, fn, directives)
+		checkDirectiveArms(ctx, roles, fn, directives, lineS.Field(fType).Name(), lineS.Field(fAddr).Name())
 	}
 	// ---- EmitBytes chunks
 	checkDbChunks(ctx, roles, lineS, fType, fAddr, fCount)
@@ -179,6 +205,7 @@ func checkListingWriter(ctx *Ctx, roles *EmitterRoles, fn *ssa.Function, byType 
 	R := ctx.R
 	pos := ctx.Prog.Pos(fn.Pos())
 	name := fn.Name()
+	typeName, addrName := lineS.Field(fType).Name(), lineS.Field(fAddr).Name()
 	ip := absint.New()
 	ip.TraceDyn = true
 	var recv *absint.Ptr
@@ -221,7 +248,7 @@ func checkListingWriter(ctx *Ctx, roles *EmitterRoles, fn *ssa.Function, byType 
 	// arm of an event: the line-type comparison that is true among its guards
 	armOf := func(g map[string]bool) (uint64, bool) {
 		for k, v := range g {
-			if !v || !strings.Contains(k, "asmLineType") || !strings.Contains(k, "==") {
+			if !v || !strings.Contains(k, "]."+typeName+"==") {
 				continue
 			}
 			// key looks like (0+mem0([a.lines])[..].asmLineType==N)  — take the constant
@@ -267,7 +294,7 @@ func checkListingWriter(ctx *Ctx, roles *EmitterRoles, fn *ssa.Function, byType 
 				}
 				ad.bytes = append(ad.bytes, renderedByte{idx: idx, guards: e.Guards})
 			}
-			if iv.W == 32 && strings.HasSuffix(k, "].address") {
+			if iv.W == 32 && strings.HasSuffix(k, "]."+addrName) {
 				ad.addrs = append(ad.addrs, k)
 			}
 		}
@@ -490,7 +517,7 @@ func checkListingWriter(ctx *Ctx, roles *EmitterRoles, fn *ssa.Function, byType 
 			// first index = address - base of the record
 			if len(seq) > 0 && seq[0].idx != nil {
 				k0 := seq[0].idx.Lin.Key()
-				if !(strings.Contains(k0, ".address") && strings.Contains(k0, "-1*a.base")) {
+				if !(strings.Contains(k0, "."+addrName) && strings.Contains(k0, "-1*a.base")) {
 					msg = fmt.Sprintf("the first byte rendered is code[%s], not code[record.address - base]", k0)
 				}
 			}
@@ -1380,7 +1407,7 @@ func checkDirectiveRecords(ctx *Ctx, roles *EmitterRoles, lineS *types.Struct, f
 }
 
 // checkDirectiveArms: the rendering side. In the arm of each directive type the writer renders the record's payload.
-func checkDirectiveArms(ctx *Ctx, roles *EmitterRoles, fn *ssa.Function, directives map[uint64]string) {
+func checkDirectiveArms(ctx *Ctx, roles *EmitterRoles, fn *ssa.Function, directives map[uint64]string, typeName, addrName string) {
 	R := ctx.R
 	if len(directives) == 0 {
 		return
@@ -1425,7 +1452,7 @@ func checkDirectiveArms(ctx *Ctx, roles *EmitterRoles, fn *ssa.Function, directi
 		for _, e := range renders {
 			inArm := false
 			for k, v := range e.Guards {
-				if v && strings.Contains(k, "asmLineType") && strings.HasSuffix(k, fmt.Sprintf("==%x)", t)) {
+				if v && strings.HasSuffix(k, fmt.Sprintf("].%s==%x)", typeName, t)) {
 					inArm = true
 				}
 			}
@@ -1439,7 +1466,7 @@ func checkDirectiveArms(ctx *Ctx, roles *EmitterRoles, fn *ssa.Function, directi
 						found = true
 					}
 				case *absint.Int:
-					if field == "address" && strings.HasSuffix(x.Lin.Key(), "].address") {
+					if field == "address" && strings.HasSuffix(x.Lin.Key(), "]."+addrName) {
 						found = true
 					}
 				}
